@@ -32,7 +32,7 @@ MC_POLICY_SIM = dict(coverage=False, name="MC_Policy_sim", module="MC_Wal.tla", 
 MC_DAMAGE = dict(coverage=False, name="MC_Damage", module="MC_Wal.tla", cfg="MC_Damage_quick.cfg", cfg_thorough="MC_Damage.cfg",
                  expect_actions=WAL_STEPS + ["Restart", "Damage"], timeout=7000)
 MC_NOOP = dict(coverage=False, name="MC_Noop", module="MC_Wal.tla", cfg="MC_Noop_quick.cfg", expect_actions=WAL_STEPS + ["Restart"], timeout=3000)
-MC_READER = dict(name="MC_Reader", module="Reader.tla", cfg="MC_Reader.cfg", expect_actions=["ReadFrame", "Header", "IntoWriter"])
+MC_READER = dict(name="MC_Reader", module="Reader.tla", cfg="MC_Reader.cfg", expect_actions=["ReadFrame", "Header", "IntoWriter", "GcOpenOrCreate"])
 MC_FRAMES = dict(name="MC_Frames", module="MC_Frames.tla", cfg="MC_Frames_quick.cfg", cfg_thorough="MC_Frames_tiny.cfg")
 MC_FRAMES_REAL = dict(name="MC_Frames_real", module="MC_Frames.tla", cfg="MC_Frames_real.cfg")
 
@@ -113,19 +113,24 @@ RECIPES = {
         level="model_checking",
         monitors={"C06"},
         mc=[MC_CLEAN],
-        runs=[dict(cmd="run", gen="gc-heavy:40,many-queues:12,big:10,restarts:20,aim-roll:80,aim-gc:40,aim-pin:30,aim-seam:30", policy="always_flush"),
+        runs=[dict(cmd="run", gen="gc-heavy:40,many-queues:12,big:10,restarts:20,aim-roll:80,aim-gc:40,aim-pin:30,aim-seam:30,aim-span:20", policy="always_flush"),
               dict(cmd="run", gen="gc-heavy:10", policy="do_nothing,always_fsync"),
+              dict(cmd="run", gen="aim-span:16,aim-roll:8,aim-gc:8,big:4,gc-heavy:4", policy="always_flush",
+                   opts={"crash": "process", "tears": "boundaries", "max-points": "300"},
+                   opts_thorough={"crash": "process", "tears": "aimed", "depth2": True, "max-points": "3000"}, thorough_factor=6),
               dict(cmd="run", genreal="GEN_Wal.cfg", genreal_thorough="GEN_Wal_5.cfg")],
         rule="after every truncate / delete / open of crash-free scripts: real readdir is a contiguous run ending at "
              "the writer's file, nothing older than min(oldest attribution, file at call start), disk_used = files * "
-             "FILE_NUM_BYTES; non-trivial = truncate/delete/restart calls",
+             "FILE_NUM_BYTES; the same after every open that recovers a process-crash image (attribution carried over "
+             "from before the crash, 'file at call start' = the file recovery resumes the writer in); "
+             "non-trivial = truncate/delete/restart calls",
         nontrivial_stat="gc_calls",
     ),
     "C02": dict(
         level="model_checking",
         monitors={"C02"},
         mc=[MC_CRASH, MC_CRASH_SIM],
-        runs=[dict(cmd="run", gen="small:24,gc-heavy:8,batch:8,big:3,restarts:6,aim-gc:8,aim-roll:6,aim-batch:4,aim-block:4,aim-pin:10", policy="always_flush",
+        runs=[dict(cmd="run", gen="small:24,gc-heavy:8,batch:8,big:3,restarts:6,aim-gc:8,aim-roll:6,aim-batch:4,aim-block:4,aim-pin:10,aim-span:6", policy="always_flush",
                    opts={"crash": "process", "tears": "aimed", "cont": True, "depth2": True, "max-points": "600"},
                    opts_thorough={"crash": "process", "tears": "all", "cont": True, "depth2": True, "max-points": "6000"},
                    thorough_factor=6),
